@@ -117,9 +117,9 @@ def graph_subscript_tables(v, gcalls) -> List[str]:
     out = []
     for gc in gcalls:
         for a in gc.vargs:
-            e = v.inline(a)
-            if isinstance(e, ast.Subscript) and isinstance(e.value, ast.Name) and e.value.id not in out:
-                out.append(e.value.id)
+            for e in (a, v.inline(a, depth=1) if isinstance(a, ast.Name) else a):
+                if isinstance(e, ast.Subscript) and isinstance(e.value, ast.Name) and e.value.id not in out:
+                    out.append(e.value.id)
     return out
 
 
